@@ -244,7 +244,7 @@ static ClassResult classify_text(const std::string &plan_text, const std::string
   int be = 0, fault = 0;
   bool any_fault = false, got_error = false;
   std::string first_detail;
-  bool pl_longer = false;
+  bool pl_longer = false, tree_block = false;
   while (std::getline(is, line)) {
     if (line.compare(0, 7, "SYNERR ") == 0) continue;
     if (line.compare(0, 6, "PLLEN ") == 0 && !got_error) {
@@ -264,6 +264,10 @@ static ClassResult classify_text(const std::string &plan_text, const std::string
       continue;
     }
     size_t p;
+    // the block the sanitizer complains about is a block of the caller's tree (parse_alloc or the default tree allocator)
+    if (got_error && (line.find(" in cb_parse_alloc") != std::string::npos || line.find(" in cb_parse_free") != std::string::npos ||
+                      line.find(" in vsim_tree_malloc") != std::string::npos || line.find(" in vsim_tree_free") != std::string::npos))
+      tree_block = true;
     if (!got_error && (p = line.find("ERROR: AddressSanitizer: ")) != std::string::npos) {
       got_error = true;
       std::string rest = line.substr(p + 25);
@@ -312,7 +316,7 @@ static ClassResult classify_text(const std::string &plan_text, const std::string
   if (opkind == "PARSE" && pl_longer) site += "(parser-list-index-past-tokens)";
   std::string prop = "C14";
   if (any_fault) prop = "C17";
-  else if (opkind == "FREE_TREE" || opkind == "WALK") prop = "C13";
+  else if (opkind == "FREE_TREE" || opkind == "WALK" || (tree_block && !pl_longer)) prop = "C13";
   else if (be == 1) prop = "C16";
   cr.classes.push_back(prop + "/" + kind + "/" + site);
   cr.details.push_back("crash during " + opkind + " be=" + std::to_string(be) + ": " + first_detail);
